@@ -24,6 +24,9 @@ def plan(req, idx):
         spec["framing"] = "close"
     elif t.startswith(b"/eof"):
         spec["framing"] = "close"
+    elif t.startswith(b"/interim"):
+        # several interim responses before the final one (100, 103 with headers, 102)
+        spec["interim"] = [(100, []), (103, [(b"Link", b"</style.css>; rel=preload")]), (102, [])]
     return spec
 
 
@@ -99,6 +102,7 @@ add(Scenario("h1-max2-AAAA", dict(max_connections=2), [c("r1", A + "/1"), c("r2"
 add(Scenario("h1-max3-ABCAB", dict(max_connections=3, max_keepalive_connections=2), [c("r1", A + "/"), c("r2", B + "/"), c("r3", C + "/"), c("r4", A + "/4"), c("r5", B + "/5")]))
 add(Scenario("h1-max1-close", dict(max_connections=1), [c("r1", A + "/close1"), c("r2", A + "/close2"), c("r3", A + "/3")]))
 add(Scenario("h1-max1-abandon", dict(max_connections=1), [c("r1", A + "/big1", consume=("chunks", 1)), c("r2", A + "/big2", consume="none"), c("r3", A + "/3")]))
+add(Scenario("h1-max1-interim", dict(max_connections=1), [c("r1", A + "/interim1"), c("r2", A + "/2"), c("r3", A + "/interim3", method="POST", headers=[(b"Content-Length", b"4")], content=[b"abcd"])]))
 add(Scenario("h1-max1-http10", dict(max_connections=1), [c("r1", A + "/http10"), c("r2", A + "/2")]))
 add(
     Scenario(
